@@ -63,16 +63,22 @@ pub uninterp spec fn s_field_checks(c: &CompInfo, ctx: &BindgenContext, ident: T
 #[verifier::external_body]
 pub fn collect_field_checks(c: &CompInfo, ctx: &BindgenContext, ident: &Tok, compile_time: bool, prefix: &Tok) -> (r: Vec<Tok>)
     ensures r@ == s_field_checks(c, ctx, *ident, compile_time) { unimplemented!() }
-#[verifier::external_body] pub fn q_size_of_expr(prefix: &Tok, ident: &Tok) -> (r: Tok) { unimplemented!() }
-#[verifier::external_body] pub fn q_align_of_expr(prefix: &Tok, ident: &Tok) -> (r: Tok) { unimplemented!() }
-#[verifier::external_body] pub fn q_check_align(compile_time: bool, err: &String, expr: &Tok, align: usize) -> (r: Tok) ensures asserts_align(r) == Some(align as int) { unimplemented!() }
+// which quantity an expression token measures
+pub uninterp spec fn is_size_of(t: Tok) -> bool;
+pub uninterp spec fn is_align_of(t: Tok) -> bool;
+#[verifier::external_body] pub fn q_size_of_expr(prefix: &Tok, ident: &Tok) -> (r: Tok) ensures is_size_of(r), !is_align_of(r) { unimplemented!() }
+#[verifier::external_body] pub fn q_align_of_expr(prefix: &Tok, ident: &Tok) -> (r: Tok) ensures is_align_of(r), !is_size_of(r) { unimplemented!() }
+// [#align_of_err][#align_of_expr - #align];
+#[verifier::external_body] pub fn q_check_align_const(err: &String, expr: &Tok, n: &usize) -> (r: Tok) ensures asserts_align(r) == (if is_align_of(*expr) { Some(*n as int) } else { None }) { unimplemented!() }
+// assert_eq!(#align_of_expr, #align, #align_of_err);
+#[verifier::external_body] pub fn q_check_align_test(expr: &Tok, n: &usize, err: &String) -> (r: Tok) ensures asserts_align(r) == (if is_align_of(*expr) { Some(*n as int) } else { None }) { unimplemented!() }
 #[verifier::external_body] pub fn q_uninit_decl(prefix: &Tok, ident: &Tok) -> (r: Tok) { unimplemented!() }
 // const _: () = { [#size_of_err][#size_of_expr - #size]; #check_struct_align #( #check_field_offset )* };
-#[verifier::external_body] pub fn q_const_assert_block(size_err: &String, size_expr: &Tok, size: usize, check_align: &Tok, checks: &Vec<Tok>) -> (r: Tok)
-    ensures asserts_size(r) == Some(size as int), asserts_align(r) == asserts_align(*check_align), field_checks_in(r) == checks@ { unimplemented!() }
+#[verifier::external_body] pub fn q_const_assert_block(size_err: &String, size_expr: &Tok, size: &usize, check_align: &Tok, checks: &Vec<Tok>) -> (r: Tok)
+    ensures asserts_size(r) == (if is_size_of(*size_expr) { Some(*size as int) } else { None }), asserts_align(r) == asserts_align(*check_align), field_checks_in(r) == checks@ { unimplemented!() }
 // #[test] fn #fn_name() { #uninit_decl assert_eq!(#size_of_expr, #size, #size_of_err); #check_struct_align #( #check_field_offset )* }
-#[verifier::external_body] pub fn q_test_fn(fn_name: &Option<Tok>, uninit: &Option<Tok>, size_expr: &Tok, size: usize, size_err: &String, check_align: &Tok, checks: &Vec<Tok>) -> (r: Tok)
-    ensures asserts_size(r) == Some(size as int), asserts_align(r) == asserts_align(*check_align), field_checks_in(r) == checks@ { unimplemented!() }
+#[verifier::external_body] pub fn q_test_fn(fn_name: &Option<Tok>, uninit: &Option<Tok>, size_expr: &Tok, size: &usize, size_err: &String, check_align: &Tok, checks: &Vec<Tok>) -> (r: Tok)
+    ensures asserts_size(r) == (if is_size_of(*size_expr) { Some(*size as int) } else { None }), asserts_align(r) == asserts_align(*check_align), field_checks_in(r) == checks@ { unimplemented!() }
 // ---- TemplateInstantiation::codegen
 #[derive(Clone, Copy, PartialEq, Eq, Structural)]
 pub struct ItemId(pub usize);
@@ -110,12 +116,18 @@ impl TemplateInstantiation {
 #[verifier::external_body] pub fn instantiation_test_name(ctx: &BindgenContext, result: &mut CodegenResult, name: &String) -> (r: Tok)
     ensures final(result).items@ == old(result).items@ { unimplemented!() }
 #[verifier::external_body] pub fn msg_s(a: &String) -> (r: String) { unimplemented!() }
+// two `expr == number` assertions in one item: which number is asserted for size (want_size) / alignment
+pub open spec fn two_asserts(want_size: bool, e1: Tok, n1: usize, e2: Tok, n2: usize) -> Option<int> {
+    let m1 = if want_size { is_size_of(e1) } else { is_align_of(e1) };
+    let m2 = if want_size { is_size_of(e2) } else { is_align_of(e2) };
+    if m1 && !m2 { Some(n1 as int) } else if m2 && !m1 { Some(n2 as int) } else if m1 && m2 && n1 == n2 { Some(n1 as int) } else { None }
+}
 // const _: () = { [#size_of_err][#size_of_expr - #size]; [#align_of_err][#align_of_expr - #align]; };
-#[verifier::external_body] pub fn q_const_size_align(size_err: &String, size_expr: &Tok, size: usize, align_err: &String, align_expr: &Tok, align: usize) -> (r: Tok)
-    ensures asserts_size(r) == Some(size as int), asserts_align(r) == Some(align as int) { unimplemented!() }
+#[verifier::external_body] pub fn q_const_size_align(err1: &String, e1: &Tok, n1: &usize, err2: &String, e2: &Tok, n2: &usize) -> (r: Tok)
+    ensures asserts_size(r) == two_asserts(true, *e1, *n1, *e2, *n2), asserts_align(r) == two_asserts(false, *e1, *n1, *e2, *n2) { unimplemented!() }
 // #[test] fn #fn_name() { assert_eq!(#size_of_expr, #size, ..); assert_eq!(#align_of_expr, #align, ..); }
-#[verifier::external_body] pub fn q_test_size_align(fn_name: &Option<Tok>, size_expr: &Tok, size: usize, size_err: &String, align_expr: &Tok, align: usize, align_err: &String) -> (r: Tok)
-    ensures asserts_size(r) == Some(size as int), asserts_align(r) == Some(align as int) { unimplemented!() }
+#[verifier::external_body] pub fn q_test_size_align(fn_name: &Option<Tok>, e1: &Tok, n1: &usize, err1: &String, e2: &Tok, n2: &usize, err2: &String) -> (r: Tok)
+    ensures asserts_size(r) == two_asserts(true, *e1, *n1, *e2, *n2), asserts_align(r) == two_asserts(false, *e1, *n1, *e2, *n2) { unimplemented!() }
 
 pub struct CodegenResult { pub items: Vec<Tok> }
 impl CodegenResult {
